@@ -7,6 +7,8 @@ import Bourse.Model.Ops
 import Bourse.Spec.Ref
 import Bourse.Lemmas.Frame
 import Bourse.Lemmas.ListAux
+import Bourse.Lemmas.RefineStep
+import Bourse.Lemmas.QueueOrder
 
 namespace Bourse.Props.C01
 open Bourse
@@ -133,5 +135,74 @@ example :
                  { t := 3, side := .ask, price := 11, vol := 5, active := 3, passive := 0 },
                  { t := 3, side := .ask, price := 11, vol := 3, active := 3, passive := 1 }] := by
   decide
+
+/-! ### The implementation is the reference engine, for every operation sequence -/
+
+/-- The reference loop only ever consumes a prefix of the priority queue: whatever is left is a
+suffix of the queue it started from (no resting order is skipped or overtaken). -/
+theorem ref_match_consumes_prefix (t : Nat) (q : List Nat) (st : Ref.MatchSt) :
+    ∃ pre, q = pre ++ (Ref.matchQ t q st).1 := by
+  induction q generalizing st with
+  | nil => exact ⟨[], rfl⟩
+  | cons j q ih =>
+    unfold Ref.matchQ
+    split
+    · exact ⟨[], rfl⟩
+    · split
+      · simp only
+        split
+        · obtain ⟨pre, hpre⟩ := ih _
+          exact ⟨j :: pre, by rw [List.cons_append, ← hpre]⟩
+        · exact ⟨[], rfl⟩
+      · exact ⟨[], rfl⟩
+
+/-- **Refinement of states.** After any valid, fault-free history from a new book, forgetting the
+implementation's keys, stamps and aggregates leaves exactly the reference engine's state after the
+same history: same order records, same two priority queues (as id lists), same trade log, clock,
+flag and counter. -/
+theorem state_is_reference_state (t0 tick : Nat) (trading : Bool) (ht : 0 < tick) (ops : List Op)
+    (hv : ∀ op ∈ ops, ValidOp op) (hnf : NoFault (Book.new t0 tick trading) ops) :
+    abs ((Book.new t0 tick trading).run ops) = Ref.run (Ref.init t0 tick trading) ops := by
+  rw [← abs_new]
+  exact run_refines (inv_new t0 tick trading ht) ops hv hnf
+
+/-- **C01, last sentence.** For every valid, fault-free operation sequence on a new book, the
+result of every operation and the complete observation after it (orders, trades, every market-data
+view, clock, flag, counter) are exactly those of the straightforward reference matching engine. -/
+theorem implementation_is_reference_engine (t0 tick : Nat) (trading : Bool) (ht : 0 < tick) (ops : List Op)
+    (hv : ∀ op ∈ ops, ValidOp op) (hnf : NoFault (Book.new t0 tick trading) ops) (n : Nat)
+    (hn : ∀ i, i < n → i * tick < P32) :
+    Book.trace n (Book.new t0 tick trading) ops = Ref.trace n (Ref.init t0 tick trading) ops := by
+  rw [← abs_new]
+  exact trace_refines (inv_new t0 tick trading ht) n hn ops hv hnf
+
+/-- **Price priority in every reachable state.** After any valid fault-free history, each side's
+queue — the list the match loop consumes from the head — is sorted by price: nearer the head means a
+better or equal price (higher for bids, lower for asks). Together with `ref_match_consumes_prefix`
+and `ref_enqueue_position` (a newcomer goes behind every order with a better or equal price) this is
+"best-priced first, earliest-queued first within a price". -/
+theorem queues_sorted_by_price (t0 tick : Nat) (trading : Bool) (ht : 0 < tick) (ops : List Op)
+    (hv : ∀ op ∈ ops, ValidOp op) (hnf : NoFault (Book.new t0 tick trading) ops) (sd : Side) :
+    let r := Ref.run (Ref.init t0 tick trading) ops
+    (r.queue sd).Pairwise (fun i j => Ref.ahead sd (Ref.priceOf r.orders i) (Ref.priceOf r.orders j) = true) := by
+  intro r
+  have hr : abs ((Book.new t0 tick trading).run ops) = r := state_is_reference_state t0 tick trading ht ops hv hnf
+  have := queue_price_sorted (inv_reachable t0 tick trading ht ops hv hnf) sd
+  rw [← abs_queue] at this
+  rw [← hr]
+  exact this
+
+/-- The hypotheses are satisfiable by a history that trades, rests, cancels and re-prices. -/
+example :
+    let ops : List Op := [.cap .ask 5 1 (some 11), .cap .ask 5 2 (some 11), .cap .bid 7 3 (some 11),
+      .cap .bid 4 4 (some 9), .modify 3 (some 11) none, .cancel 1]
+    (∀ op ∈ ops, ValidOp op) ∧ NoFault (Book.new 0 1 true) ops ∧
+      ((Book.new 0 1 true).run ops).trades.length = 3 := by
+  refine ⟨?_, ?_, by decide⟩
+  · intro op hop
+    simp only [List.mem_cons, List.not_mem_nil, or_false] at hop
+    rcases hop with h | h | h | h | h | h <;> subst h <;> simp [ValidOp, MAXP]
+  · simp only [NoFault, and_true]
+    decide
 
 end Bourse.Props.C01
